@@ -11,8 +11,8 @@ TIERS = {"quick": (48, 400), "thorough": (1600, 1500)}
 
 
 class ComponentCheck:
-    def __init__(self, pid: str, pick, tiers: dict | None = None, drain: int = 40, per_shard: int | None = None):
-        self.pid, self.pick = pid, pick
+    def __init__(self, pid: str, pick, tiers: dict | None = None, drain: int = 40, per_shard: int | None = None, rivals: bool = True):
+        self.pid, self.pick, self.rivals = pid, pick, rivals
         self.tiers = dict(TIERS, **(tiers or {}))
         self.drain = drain
         self.per_shard = per_shard
@@ -30,4 +30,6 @@ class ComponentCheck:
             rec.count("configs:" + str(case.get("kind", "")))
             if len(rec.samples) < 2:
                 rec.sample({"config": case, "cycles": spec["cycles"]})
-            run_history(rec, make, rnd, spec["cycles"], case, klass=klass, drain=self.drain, prop_tag=str(case.get("kind", "")))
+            # 30% of the histories give each provided exclusive method a second, competing caller
+            rivals = self.rivals and random.Random(f"rivals:{self.pid}:{spec['seed']}:{i}").random() < 0.3
+            run_history(rec, make, rnd, spec["cycles"], case, klass=klass, drain=self.drain, prop_tag=str(case.get("kind", "")), rivals=rivals)
